@@ -183,13 +183,19 @@ def run_check(modname: str, tier: str, seed: int, replay_path: str | None = None
     for payload, r, unknown in violations:
         for m in unknown:
             sig_count[m.get('signature', '?')] += 1
+    per_sig = collections.Counter()
     for payload, r, unknown in violations:
         rc = 1
-        if shown < 25:
+        sigs = {m.get('signature', '?') for m in unknown}
+        fresh = [sg for sg in sigs if per_sig[sg] < 3]
+        if fresh and shown < 60:
+            for sg in sigs:
+                per_sig[sg] += 1
             case = json.loads(payload) if isinstance(payload, str) else payload
             path = write_replay(prop, case, unknown, {'seed': seed, 'tier': tier})
             print(f'VIOLATION property={prop} replay={path}')
-            print('   ', json.dumps(unknown[0], default=str)[:600])
+            first = [m for m in unknown if m.get('signature') in fresh][0]
+            print('   ', json.dumps(first, default=str)[:700])
             shown += 1
     if violations:
         print(f'{len(violations)} violating scenarios; by signature: {dict(sig_count)}')
